@@ -396,6 +396,33 @@ def dm16(ctx, rule="R-DM16-PREFIX", rule_thr="R-DM16-THRESH"):
                                              f.node)
     if n_thr < 3:
         ctx.unknown(rule_thr, "only %d size comparisons found" % n_thr)
+    # server: the end-of-message hook is registered exactly when the DM16 goes out by transport protocol (n >= 8 data bytes)
+    f = P.func(S, "_send_dm16")
+    n = lensym(field("data"))
+    multi = mk_cmp("<", ("c", LIM), n)
+    res = []
+    for r in runs(ctx, f, unroll=1):
+        sends = [i for i, e in r.effects() if e.kind == "call" and e.value[1] == ("attr", field("_ca"), "send_pgn")]
+        if not sends:
+            continue
+        hook = [e for _, e in r.effects() if e.kind == "call" and e.value[1] == ("attr", field("_ca"), "subscribe") and e.value[2] == (("attr", SELF, "_parse_dm16"),)]
+        F = G.conj([(g, p) for g, p in r.guards() if contains(g, n) or any(x[0] == "attr" and x[1] == SELF for x in walk(g))])
+        try:
+            ok, cex = G.implies(F, multi if hook else mk_not(multi))
+        except AnalysisError as ex:
+            ctx.unknown(rule_thr, "%s: %s" % (f.qual, ex))
+            return
+        res.append((bool(hook), ok, cex, (hook[0].node if hook else f.node)))
+    inst = "%s._send_dm16 waits for the transport's end-of-message iff the DM16 has more than 7 data bytes" % S
+    if not res:
+        ctx.unknown(rule_thr, "no sending path in %s" % f.qual)
+    elif all(ok for _, ok, _, _ in res) and any(h for h, _, _, _ in res):
+        ctx.holds(rule_thr, inst)
+    else:
+        h, ok, cex, node = [x for x in res if not x[1]][0] if any(not x[1] for x in res) else res[0]
+        ctx.violated(rule_thr, f, inst, "the end-of-message hook is %s on a path whose condition does not decide `len(data) > 7` (%s): a multi-packet "
+                     "answer of few large objects is never completed, or a single-frame answer waits for an acknowledgement that never comes" % (
+                         "registered" if h else "not registered", cex), node)
 
 
 def chunk_slice(ctx, rule="R-CHUNK-SLICE"):
@@ -534,6 +561,29 @@ def idle_reset(ctx, rule="R-IDLE-RESET"):
                 ctx.holds(rule, inst)
     if n < 3:
         ctx.unknown(rule, "only %d IDLE stores found" % n)
+    # converse: the identity is forgotten ONLY together with the return to IDLE - while a transaction is open (any other state)
+    # the admission guard needs it to recognise the running requester
+    for fn in P.cls(S).methods.values():
+        if fn.name == "__init__":
+            continue
+        seen = set()
+        for r in runs(ctx, fn):
+            clr = [(i, e) for i, e in r.effects() if e.kind == "store" and e.target[0] == "attr" and e.target[1] == SELF and e.target[2] in ident
+                   and e.value == ("c", None)]
+            if not clr or id(clr[0][1].node) in seen:
+                continue
+            st = [e.value for _, e in r.effects() if e.kind == "store" and e.target == field("state")]
+            lab = _case_label(r)
+            inst = "%s.%s%s: %s forgotten only when the transaction ends" % (S, fn.name, lab, sorted({e.target[2] for _, e in clr}))
+            if st and st[-1] == idle:
+                ctx.holds(rule, inst)
+            elif not st and fn.name == "reset_query":
+                ctx.holds(rule, inst)
+            else:
+                seen.add(id(clr[0][1].node))
+                ctx.violated(rule, fn, inst, "the requester / pointer of the running transaction is cleared while the state stays %s: the admission "
+                             "guard no longer knows whom the transaction belongs to, and a DM14 from another address is taken for the next message "
+                             "of the running transaction" % (pretty(st[-1]) if st else "unchanged (not IDLE)"), clr[0][1].node)
 
 
 def _case_label(r):
@@ -959,6 +1009,37 @@ def facade_busy(ctx, rule="R-FACADE-BUSY"):
         ctx.holds(rule, "no application callback is reachable while waiting for respond()")
 
 
+def facade_track(ctx, rule="R-FACADE-TRACK"):
+    """the facade follows the server: it leaves IDLE only for a DM14 it found the server idle for (and handed to it) - a DM14
+    arriving while the server is busy with somebody's transaction must not advance the facade's own state machine"""
+    P = ctx.prog
+    f = P.func(M, "_listen_for_dm14")
+    srv = field("server")
+    idle = enumv(ctx, "DMState", "IDLE")
+    n = 0
+    seen = set()
+    for r in runs(ctx, f):
+        gl = lits(r.guards())
+        if (mk_cmp("==", field("state"), idle), True) not in gl:
+            continue
+        for i, e in r.effects():
+            if e.kind == "store" and e.target == field("state") and e.value != idle and id(e.node) not in seen:
+                gi = lits(r.guards(i))
+                dom = any(p and contains(g, ("attr", srv, "state")) for g, p in gi)
+                if dom:
+                    n += 1
+                    continue
+                seen.add(id(e.node))
+                n += 1
+                ctx.violated(rule, f, "IDLE arm: the facade leaves IDLE only when the server is idle", "self.state becomes %s before / without the test that the "
+                             "server is idle: a DM14 from an intruder during a running transaction moves the facade on, and its next DM14 is processed as "
+                             "the continuation of a request - the application callbacks become reachable for it" % pretty(e.value), e.node)
+    if n == 0:
+        ctx.unknown(rule, "no state change found in the IDLE arm of %s" % f.qual)
+    elif not seen:
+        ctx.holds(rule, "IDLE arm: every state change is dominated by `server is idle`")
+
+
 def forward_names(ctx, rule="R-FORWARD-NAMES", classes=None):
     """a method that forwards to the same-named method of a component passes each of its parameters to the
     callee parameter of the same name (argument-selection defects between adjacent same-typed parameters)"""
@@ -1046,3 +1127,105 @@ def queue_typestate(ctx, rule="R-QUEUE-TYPESTATE"):
                                      "payload; nothing consumes it, so the next write hands the application these stale bytes", e.node)
     if n < 2:
         ctx.unknown(rule, "queue operations not found (%d)" % n)
+
+
+def seed_any(ctx, rule="R-SEED-ANY"):
+    """client: whether a seed response (DM15 with length byte 0) is answered with the key does not depend on the value of the
+    16-bit seed - in particular the boundary seed 0xFFFF (the 'no seed' pattern of the proceed response) is a legal seed"""
+    P = ctx.prog
+    f = P.func("Dm14Query", "_parse_dm15")
+    D0 = ("sub", ("p", "data"), ("c", 0))
+    seedbytes = (("sub", ("p", "data"), ("c", 6)), ("sub", ("p", "data"), ("c", 7)))
+    OC = ("attr", SELF, "object_count")
+
+    def pin(s):
+        # a seed response carries 0 in the length byte; a transaction always asks for at least one object
+        def fn(x):
+            if x == D0:
+                return ("c", 0)
+            return None
+        s = G.renorm(G.subst(s, fn))
+
+        def fn2(x):
+            if x[0] == "cmp" and x[1] == "==" and {x[2], x[3]} == {("c", 0), OC}:
+                return ("c", False)
+            if x[0] == "cmp" and x[1] == "<" and x[2] == ("c", 0) and x[3] == OC:
+                return ("c", True)
+            return None
+        return G.renorm(G.subst(s, fn2))
+
+    key_pcs, n = [], 0
+    node = f.node
+    for r in runs(ctx, f):
+        for i, e in r.effects():
+            if e.kind == "call" and mname(e.value) == "_send_dm14" and e.value[2] and e.value[2][0][0] == "call" and \
+                    e.value[2][0][1] == ("attr", SELF, "_seed_from_key"):
+                n += 1
+                node = e.node
+                arg = e.value[2][0][2]
+                if not arg or not all(any(b == x for x in walk(arg[0])) for b in seedbytes):
+                    ctx.violated(rule, f, "key computed from the received seed", "the key algorithm is applied to %s, not to the 16-bit seed in bytes 7..8 of the DM15" % (
+                        pretty(arg[0])[:60] if arg else "nothing"), e.node)
+                    return
+                key_pcs.append(pin(G.conj(r.guards(i))))
+                break
+    if not key_pcs:
+        ctx.unknown(rule, "no path of %s answers a seed with _send_dm14(self._seed_from_key(seed))" % f.qual)
+        return
+    phi = G.disj(key_pcs)
+    ats = sorted(G.atoms(phi), key=repr)
+    seed_atoms = [a for a in ats if any(contains(a, b) for b in seedbytes)]
+    inst = "the key is sent for every 16-bit seed of a seed response (length byte 0)"
+    if not seed_atoms:
+        ctx.holds(rule, inst)
+        return
+    try:
+        groups = {}
+        for asg in G.assignments([phi]):
+            k = tuple(asg[a] for a in ats if a not in seed_atoms)
+            groups.setdefault(k, set()).add(G.evalf(phi, asg))
+    except AnalysisError as ex:
+        ctx.unknown(rule, str(ex))
+        return
+    if any(len(v) > 1 for v in groups.values()):
+        ctx.violated(rule, f, inst, "with the length byte 0 of a seed response, whether the key is sent still depends on %s: for that seed value the client "
+                     "takes the seed message for something else, never returns the key, and the server stays locked waiting for it" % (
+                         " / ".join(pretty(a)[:60] for a in seed_atoms[:2])), node)
+    else:
+        ctx.holds(rule, inst)
+
+
+def seed_bind(ctx, rule="R-SEED-BIND"):
+    """server: the seed a key is verified against is the seed that was sent - `self.seed` is drawn only on the path that puts
+    it into the seed DM15 (state WAIT_FOR_KEY); any other DM15 (busy answers in particular) leaves it alone"""
+    P = ctx.prog
+    c = P.cls("DM14Server")
+    SEED = ("attr", SELF, "seed")
+    n = 0
+    for fn in c.methods.values():
+        try:
+            rs = runs(ctx, fn)
+        except AnalysisError:
+            continue
+        seen = set()
+        for r in rs:
+            for i, e in r.effects():
+                if e.kind not in ("store", "aug") or e.target != SEED or id(e.node) in seen:
+                    continue
+                if is_const(e.value) and e.value[1] is None:
+                    continue  # cleared together with the transaction
+                seen.add(id(e.node))
+                n += 1
+                inst = "%s draws a new seed only for the seed message it sends" % fn.name
+                ok = False
+                for g, p in lits(r.guards(i)):
+                    if p and g[0] == "cmp" and g[1] == "==" and any(isinstance(x[1], EnumVal) and x[1].name == "WAIT_FOR_KEY" for x in (g[2], g[3]) if is_const(x)):
+                        ok = True
+                if ok:
+                    ctx.holds(rule, inst)
+                else:
+                    ctx.violated(rule, fn, inst, "self.seed is overwritten on a path that is not the WAIT_FOR_KEY (seed message) arm: a DM15 sent for another reason "
+                                 "- a busy answer to a third node - replaces the seed of the session in progress, so the right key is refused and a key "
+                                 "for a seed nobody received is accepted", e.node)
+    if n == 0:
+        ctx.unknown(rule, "no store to DM14Server.seed found")
